@@ -260,3 +260,16 @@ Definition count_completion (evs : list event) : nat :=
   length (filter (fun e => match e with ECompletion => true | _ => false end) evs).
 Definition count_fire (evs : list event) : nat :=
   length (filter (fun e => match e with EFire => true | _ => false end) evs).
+
+Definition is_nil {A : Type} (l : list A) : bool := match l with [] => true | _ => false end.
+
+(* histories of the login as the property describes it: sends and relays at any time, the event at
+   most once, client responses only after it, the callback never cleared.  [f] = already fired. *)
+Fixpoint adm (f : bool) (os : list op) : bool :=
+  match os with
+  | [] => true
+  | OSend _ _ :: r | ORelay _ _ :: r => adm f r
+  | OResponse _ _ _ :: r => f && adm f r
+  | OFire :: r => negb f && adm true r
+  | OClear :: _ => false
+  end.
